@@ -1114,7 +1114,11 @@ impl CanonicalizeContext {
 				}
 
 				if element_name == "mrow" || ELEMENTS_WITH_ONE_CHILD.contains(element_name) {
+					#[cfg(mathcat_verif)]
+					let verif_before = verif::summarize(&children);
 					merge_number_blocks(self, mathml, &mut children);
+					#[cfg(mathcat_verif)]
+					verif::log_merge(mathml, verif_before, verif::summarize(&children));
 					merge_whitespace(&mut children);
 					handle_convert_to_mmultiscripts(&mut children);
 				} else if element_name == "msub" || element_name == "msup" || 
@@ -4133,6 +4137,50 @@ fn show_invisible_op_char(ch: &str) -> &str {
 /// Verification hooks (compiled only with `--cfg mathcat_verif`): thin wrappers that expose internal functions unchanged.
 pub mod verif {
 	use super::*;
+
+	thread_local!{
+		static MERGE_LOG: std::cell::RefCell<Vec<String>> = const { std::cell::RefCell::new(vec![]) };
+	}
+
+	/// (tag, text, is a fence operator) of each child
+	pub fn summarize(children: &[ChildOfElement]) -> Vec<(String, String, bool)> {
+		return children.iter().map(|&child| {
+			let child = as_element(child);
+			let is_leaf = is_leaf(child);
+			(name(&child).to_string(),
+			 if is_leaf {as_text(child).to_string()} else {"".to_string()},
+			 name(&child) == "mo" && is_fence(child))
+		}).collect();
+	}
+
+	fn one(element: Option<Element>) -> String {
+		return match element {
+			None => "-".to_string(),
+			Some(e) => format!("{}\u{1}{}\u{1}{}", name(&e), if is_leaf(e) {as_text(e)} else {""}, name(&e) == "mo" && is_fence(e)),
+		};
+	}
+
+	/// records one call of merge_number_blocks: context of the row, children before and after
+	pub fn log_merge(mrow: Element, before: Vec<(String, String, bool)>, after: Vec<(String, String, bool)>) {
+		let parent_name = match mrow.parent().and_then(|p| p.element()) { Some(p) => name(&p).to_string(), None => "-".to_string() };
+		let prev = mrow.preceding_siblings().last().and_then(|c| c.element());
+		let next = mrow.following_siblings().first().and_then(|c| c.element());
+		let fmt = |v: &Vec<(String, String, bool)>| v.iter().map(|(n, t, f)| format!("{}\u{1}{}\u{1}{}", n, t, f)).collect::<Vec<String>>().join("\u{2}");
+		let entry = format!("{}\u{3}{}\u{3}{}\u{3}{}\u{3}{}\u{3}{}", name(&mrow), parent_name, one(prev), one(next), fmt(&before), fmt(&after));
+		MERGE_LOG.with(|log| log.borrow_mut().push(entry));
+	}
+
+	pub fn take_merge_log() -> Vec<String> {
+		return MERGE_LOG.with(|log| log.replace(vec![]));
+	}
+
+	/// the seven number patterns for the given separator preferences, applied to `text`
+	pub fn number_patterns(text: &str, block_separators: &str, decimal_separators: &str) -> Vec<bool> {
+		let p = CanonicalizeContextPatterns::new(block_separators, decimal_separators);
+		return vec![p.decimal_separator.is_match(text), p.block_separator.is_match(text), p.digit_only_decimal_number.is_match(text),
+			p.block_3digit_pattern.is_match(text), p.block_3_5digit_pattern.is_match(text), p.block_4digit_hex_pattern.is_match(text),
+			p.block_1digit_pattern.is_match(text)];
+	}
 
 	/// Runs `canonicalize_plane1` on `<mi mathvariant=variant>text</mi>` (no attribute when `variant` is None) and returns the new text.
 	pub fn plane1(text: &str, variant: Option<&str>) -> String {
